@@ -140,7 +140,8 @@ def simulate(
             **options,
         )
     else:
-        sm = init
+        # work on a copy: the caller's state matrix and its options are left untouched
+        sm = init.copy()
         sm.options.update(options)
 
     LOGGER.info(f"Initial state matrix: num. states: {sm.nstate}, shape: {sm.shape}")
